@@ -16,6 +16,9 @@ ties-to-even / exact / monotone in `Props/FloatRound.lean`:
   ints); `timestamp_float_roundtrip`: `datetime(s, o).timestamp` is the double `s` itself, bit for bit, whenever `s` is a
   whole number of microseconds.
 * `tsDivTs_float` - `ts1 / ts2` is `float(us1) / float(us2)`, one rounding of `us1 / us2` below 2^53.
+* `ts_scale_float` - `ts * n`, `ts / n` through the float steps the code performs (`tsMulNumF`, `tsDivNumF`: `int / int` or
+  `float(int)` and one IEEE division / multiplication, then `timedelta(microseconds=<float>)`): exact for an int factor and for a
+  division that comes out even, ZeroDivisionError for a zero divisor.
 -/
 namespace Yaql.Props.C20
 open Yaql.DateTime Yaql.FloatRound Yaql.Props.FloatRound
@@ -275,6 +278,63 @@ theorem tsDivTs_float (a b : Int) (ha : a.natAbs ≤ 2 ^ 53) (hb : 0 < b) (hb2 :
       have e1 : ((b * (scale : Int)).toNat : Int) = b * scale := by omega
       have e2 : ((b.toNat : Nat) : Int) = b := by omega
       rw [e1, e2]; ring
+
+/-! ## `ts * n`, `ts / n` with their float steps -/
+
+theorem roundHalfEven_scale (k : Int) : roundHalfEven (k * scale) (scale : Nat) = k := by
+  have hS : (0 : Int) < scale := by exact_mod_cast scale_pos
+  unfold roundHalfEven
+  have h1 : k * (scale : Int) / (scale : Int) = k := Int.mul_ediv_cancel k (by omega)
+  have h2 : k * (scale : Int) % (scale : Int) = 0 := Int.mul_emod_left k _
+  simp only [h1, h2]
+  rw [if_pos (by omega)]
+
+/-- the timespan a double that is a whole number `k` of microseconds makes -/
+theorem tsOfFloat_int (w : UInt64) (k : Int) (h : decode w = .fin (k * scale)) : tsOfFloat w = mkTs k := by
+  unfold tsOfFloat
+  rw [h]
+  simp only [roundHalfEven_scale]
+
+/-- **`ts * n`, `ts / n` through the float steps the code performs**: an int factor multiplies exactly (OverflowError outside
+    the timedelta range); `ts / 0` and `ts / 0.0` are ZeroDivisionError; a division that comes out even (`t = k * n`, `k` up
+    to 2^53 microseconds) is exact although it goes through `int / int -> float -> timedelta(microseconds=<float>)` -/
+theorem ts_scale_float (t n k : Int) :
+    tsMulNumF t (.int n) = mkTs (t * n) ∧
+    tsDivNumF t (.int 0) = .error .zeroDivisionError ∧
+    (t.natAbs ≤ 2 ^ 53 → tsDivNumF t (.flt 0 1) = .error .zeroDivisionError) ∧
+    (n ≠ 0 → k.natAbs ≤ 2 ^ 53 → tsDivNumF (k * n) (.int n) = mkTs k) := by
+  refine ⟨?_, ?_, ?_, ?_⟩
+  · simp [tsMulNumF, tsOfMicros, (units t).1]
+  · simp [tsDivNumF, pyTrueDiv, bind, Except.bind]
+  · intro ht
+    obtain ⟨f, hf1, _⟩ := roundRat_int_small t ht
+    have hz : roundRat 0 (1 : Int).toNat = .ok 0 := roundRat_zero _ (by decide)
+    simp only [tsDivNumF, (units t).1, pyFloat_ok.mpr hf1, bitsOfNum, hz, bind, Except.bind, pyFloatDiv]
+    rfl
+  · intro hn hk
+    simp only [tsDivNumF, (units (k * n)).1, bind, Except.bind]
+    obtain ⟨w, hw1, hw2⟩ := roundRat_int_small k hk
+    by_cases hk0 : k = 0
+    · subst hk0
+      simp only [Int.zero_mul, pyTrueDiv, if_neg hn, if_pos]
+      have : tsOfFloat (if n < 0 then 0x8000000000000000 else 0) = mkTs 0 := by
+        apply tsOfFloat_int
+        rw [Int.zero_mul]
+        split <;> decide
+      simpa using this
+    · have hkn : k * n ≠ 0 := Int.mul_ne_zero hk0 hn
+      have hcongr : roundRat (if n < 0 then -(k * n) else k * n) n.natAbs = roundRat k 1 := by
+        apply roundRat_congr _ _ _ _ (by omega) (by decide)
+        split
+        · have : (n.natAbs : Int) = -n := by omega
+          rw [this]; simp
+        · have : (n.natAbs : Int) = n := by omega
+          rw [this]; simp
+      simp only [pyTrueDiv, if_neg hn, if_neg hkn, hcongr, hw1]
+      exact tsOfFloat_int w k hw2
+
+example : tsDivNumF 3000000 (.int 2) = .ok 1500000 ∧ tsDivNumF 1 (.int 2) = .ok 0 ∧ tsDivNumF 3 (.int 2) = .ok 2 ∧
+    tsMulNumF 3 (.flt 1 2) = .ok 2 ∧ tsDivNumF 7 (.flt 0 1) = .error .zeroDivisionError := by decide +kernel
 
 /-! ## examples (kernel evaluation; tests, nothing depends on them) -/
 
